@@ -20,7 +20,8 @@ def classify(t):
 
 def run(chk):
     from stix2.pattern_visitor import create_pattern_object
-    chk.explanation = ('No clause is proved (ANTLR visitor, %-formatting over opaque model objects: outside the modelled subset).  Bounded stand-in: a generator of pattern '
+    chk.explanation = ('Proved: escape_quotes_and_backslashes writes every character as the string-literal grammar requires (exhaustive over all Unicode scalar values; lifted to strings because the function is a chain of one-character str.replace calls, a homomorphism). '
+                       'Nothing else is proved (ANTLR visitor, %-formatting over opaque model objects: outside the modelled subset).  Bounded stand-in: a generator of pattern '
                        'trees (every comparison operator with and without NOT, every constant kind incl. strings needing escapes and large integers, quoted / indexed / '
                        'reference path steps, nested boolean and observation operators at every precedence / parenthesisation, all qualifiers) prints each tree with its own '
                        'precedence-aware printer; text -> create_pattern_object -> str -> independent reader must give the same tree (with != read as NOT =), str o parse is a '
@@ -51,6 +52,9 @@ def run(chk):
     for ob in purity_obligations(SRC_ROOT, ['stix2/pattern_visitor.py::create_pattern_object'], allow=()):
         chk.lemmas.append(ob)
         if ob.result != 'discharged': chk.violation('frame#create_pattern_object', 'frame obligation fails: ' + ob.clause, {'obligation': ob.clause}, no_input=True)
+    # "string constants escaped correctly": the escaping function under its per-character contract (complete over all code points), lifted to strings by the homomorphism argument
+    from contracts import patterns as KPAT
+    KPAT.string_escape_obligations(chk, SRC_ROOT)
 
     def check(t):
         text = show(t)
